@@ -31,6 +31,35 @@ TYPED_XSD = (f'<xs:schema xmlns:xs="{cm.XS}" targetNamespace="urn:T" xmlns:t="ur
              '</xs:sequence><xs:attribute name="a" type="xs:integer"/><xs:anyAttribute processContents="lax"/>'
              '</xs:complexType></xs:element></xs:schema>')
 XSI = 'xmlns:xsi="http://www.w3.org/2001/XMLSchema-instance"'
+# identity constraints over typed fields: the field values are evaluated by the XPath engine
+IDENT_XSD = (f'<xs:schema xmlns:xs="{cm.XS}" targetNamespace="urn:T" xmlns:t="urn:T" elementFormDefault="qualified">'
+             '<xs:element name="r"><xs:complexType><xs:sequence>'
+             '<xs:element name="it" maxOccurs="unbounded"><xs:complexType><xs:sequence>'
+             '<xs:element name="u" type="xs:decimal" minOccurs="0"/><xs:element name="d" type="xs:date" minOccurs="0"/>'
+             '<xs:element name="b" type="xs:boolean" minOccurs="0"/>'
+             '</xs:sequence><xs:attribute name="k" type="xs:int"/><xs:attribute name="ref" type="xs:int"/>'
+             '</xs:complexType></xs:element></xs:sequence></xs:complexType>'
+             '<xs:key name="K"><xs:selector xpath="t:it"/><xs:field xpath="@k"/></xs:key>'
+             '<xs:unique name="U"><xs:selector xpath="t:it"/><xs:field xpath="t:u"/></xs:unique>'
+             '<xs:unique name="D"><xs:selector xpath="t:it"/><xs:field xpath="t:d"/><xs:field xpath="t:b"/></xs:unique>'
+             '<xs:keyref name="R" refer="t:K"><xs:selector xpath="t:it"/><xs:field xpath="@ref"/></xs:keyref>'
+             '</xs:element></xs:schema>')
+IDENT_VALUES = {"k": ["1", "x", "", " 2 ", "1e3", "9" * 30, "+3", "١"],
+                "ref": ["1", "y", "9" * 30, ""],
+                "u": ["1.0", "abc", "1,5", "", "1e2", "٣", "." ],
+                "d": ["2024-01-01", "99999999999999999999-01-01", "2024-13-01", "x", "", "-0001-01-01", "0000-01-01"],
+                "b": ["true", "maybe", "", "2"]}
+# XSD 1.1 type alternatives whose tests fail dynamically on some instances
+ALT_XSD = (f'<xs:schema xmlns:xs="{cm.XS}">'
+           '<xs:element name="r"><xs:complexType><xs:sequence>'
+           '<xs:element name="e" maxOccurs="unbounded" type="xs:anySimpleType">'
+           '<xs:alternative test="xs:integer(@n) idiv xs:integer(@m) = 1" type="xs:int"/>'
+           '<xs:alternative test="@n div @m &gt; 1" type="xs:date"/>'
+           '<xs:alternative test="xs:date(@n) &gt; xs:date(\'2000-01-01\')" type="xs:boolean"/>'
+           '<xs:alternative type="xs:string"/>'
+           '</xs:element></xs:sequence></xs:complexType></xs:element></xs:schema>')
+ALT_ATTRS = [("6", "0"), ("6", "5"), ("x", "1"), ("1", "y"), ("2024-01-01", "0"), ("", ""), ("1e400", "1e-400"),
+             ("9" * 40, "1"), ("INF", "0"), ("NaN", "NaN"), (None, "1"), ("1", None)]
 HOSTILE = [
     "<t:i>" + "9" * 400 + "</t:i>", "<t:i>-" + "9" * 40 + "</t:i>", "<t:i>1e5</t:i>", "<t:i>١٢</t:i>",
     "<t:d>99999999999-01-01</t:d>", "<t:d>-99999999999-12-31</t:d>", "<t:d>2024-02-30</t:d>",
@@ -136,12 +165,13 @@ def default_limits_case(job):
 
 def outcome_case(job):
     """-> disagreements for one (xsds, xml bytes, description, well_formed)."""
-    xsds, data, about, well_formed = job
+    xsds, data, about, well_formed = job[:4]
     import xmlschema
     out = []
+    cls = xmlschema.XMLSchema11 if len(job) > 4 and job[4] == "1.1" else xmlschema.XMLSchema10
     with warnings.catch_warnings():
         warnings.simplefilter("ignore")
-        schema = xmlschema.XMLSchema(list(xsds) if len(xsds) > 1 else xsds[0])
+        schema = cls(list(xsds) if len(xsds) > 1 else xsds[0])
     calls = [("is_valid", lambda: schema.is_valid(data)),
              ("iter_errors", lambda: list(schema.iter_errors(data))),
              ("decode lax", lambda: schema.decode(data, validation="lax")),
@@ -156,9 +186,9 @@ def outcome_case(job):
                 out.append((about, name, f"foreign exception {type(e).__name__}: {str(e)[:120]}"))
             elif well_formed and name in ("is_valid", "iter_errors", "decode lax", "decode skip",
                                           "lazy iter_errors") \
-                    and isinstance(e, xmlschema.XMLSchemaValidationError):
+                    and not isinstance(e, xmlschema.XMLResourceError):
                 out.append((about, name, f"lax/collecting entry point raised {type(e).__name__} for a "
-                            f"well-formed document: {str(e.reason)[:120]}"))
+                            f"well-formed document: {str(getattr(e, 'reason', None) or e)[:120]}"))
     return out
 
 
@@ -173,7 +203,7 @@ def run(ctx: Ctx):
     total = 0
     # (i) limits: spec cases
     settings = [(1, 9, True), (2, 9, True), (3, 9, False), (2, 2, False), (9, 3, False), (3, 4, False),
-                (4, 5, True), (9, 1, False)]
+                (4, 5, True), (9, 1, False), (9, 2, True), (3, 3, True)]
     runs = ctx.parallel([(lambda s=s: ctx.tlc("Lazy", "Lazy.cfg", workers=2, tag=f"A-{s}",
                                               constants={"D": 1, "Thin": "FALSE", "MaxLen": 6 if thorough else 5,
                                                          "MaxDepth": s[0], "MaxElems": s[1],
@@ -215,6 +245,26 @@ def run(ctx: Ctx):
         for ra in ROOT_ATTRS[:: (1 if thorough else 3)]:
             xml = f'<t:r xmlns:t="urn:T" xmlns:xs="{cm.XS}" {XSI}{ra}>{h}</t:r>'
             jobs.append(((TYPED_XSD,), xml.encode("utf-8"), f"hostile {h[:40]} root attrs {ra[:30]}", True))
+    # (iv) ill-typed values in identity-constraint fields (both versions); unknown xsi:type on declared
+    # children; XSD 1.1 alternatives whose tests raise dynamic errors
+    for ver in ("1.0", "1.1"):
+        for name, values in IDENT_VALUES.items():
+            for v in values:
+                for other in ("", '<t:it k="1"><t:u>1.0</t:u><t:d>2024-01-01</t:d><t:b>true</t:b></t:it>'):
+                    it = (f'<t:it {name}="{v}"/>' if name in ("k", "ref") else
+                          f'<t:it k="7">{"<t:u>1</t:u>" if name in "db" else ""}'
+                          f'{"<t:d>2000-01-01</t:d>" if name == "b" else ""}<t:{name}>{v}</t:{name}></t:it>')
+                    xml = f'<t:r xmlns:t="urn:T">{other}{it}</t:r>'
+                    jobs.append(((IDENT_XSD,), xml.encode("utf-8"), f"identity field {name}={v[:30]!r} ({ver})",
+                                 True, ver))
+        for xt in ("nope", "t:nope", "xs:nope", "unbound:x", "xs:string", "", "t:", ":x", "xs:int xs:int"):
+            xml = (f'<t:r xmlns:t="urn:T" xmlns:xs="{cm.XS}" {XSI}><t:i xsi:type="{xt}">1</t:i>'
+                   f'<t:d xsi:type="{xt}">2024-01-01</t:d></t:r>')
+            jobs.append(((TYPED_XSD,), xml.encode("utf-8"), f"child with xsi:type={xt!r} ({ver})", True, ver))
+    for n, m in ALT_ATTRS:
+        at = (f' n="{n}"' if n is not None else "") + (f' m="{m}"' if m is not None else "")
+        jobs.append(((ALT_XSD,), f"<r><e{at}>1</e><e n='6' m='5'>1</e></r>".encode("utf-8"),
+                     f"type alternative tests on n={n!r} m={m!r}", True, "1.1"))
     for bad in ctx.pmap(outcome_case, jobs):
         total += 6
         for about, name, what in bad:
@@ -224,10 +274,11 @@ def run(ctx: Ctx):
                                          "outcome": runs[0].json_records()[5]["outcome"]}})
     ctx.sample({"outcome_case": jobs[0][2]})
     ctx.impl_replays = ctx.evaluations = ctx.nontrivial = total
-    ctx.rule = ("(i) every document shape of <= 5/6 elements x 8 limit settings x {full, lazy} x {XMLResource, "
+    ctx.rule = ("(i) every document shape of <= 5/6 elements x 10 limit settings x {full, lazy} x {XMLResource, "
                 "validation} from TLC + default limits at 999/1000/1001; (ii) every (3rd) truncation point and "
-                "seeded garbling of pool documents; (iii) 27 hostile values x stray root attributes; each x 6 "
-                "entry points / modes")
+                "seeded garbling of pool documents; (iii) 27 hostile values x stray root attributes; (iv) ill-typed "
+                "identity-field values, unknown xsi:type on declared children (1.0 and 1.1), XSD 1.1 type alternatives "
+                "whose tests fail dynamically; each x 6 entry points / modes")
     ctx.assumptions += ["library hierarchy = XMLSchemaException and subclasses (incl. XMLResourceError)",
                         "remote schema locations are never fetched (no network): hints pointing to remote "
                         "locations fail inside the library"]
